@@ -19,11 +19,11 @@ RULE = ("seeded random expression trees (depth <= 5) over the documented grammar
         "(d/dt * x and x' notations); all must equal the independent AST evaluation (float64, cross-checked with 40-digit mpmath; "
         "ill-conditioned trees discarded); non-trivial = tree has >= 4 nodes; distinct = distinct tree hash")
 DECIDING = ['eval_node_values', 'generated_function_values', 'spellings_compared', 'index_expressions', 'ddt_notation', 'prime_notation',
-            'hostile_names', 'rewritten_variable_values', 'derived_label_neighbour_values']
+            'hostile_names', 'rewritten_variable_values', 'derived_label_neighbour_values', 'index_expressions_generated']
 ASSUMPTIONS = ['sigmoid is the logistic function, maxi/mini are element-wise maximum/minimum', 'argument domains are kept safe by construction',
                'ill-conditioned expressions (float64 vs mpmath differ by more than 1e-11 relative) are discarded']
 CASE_TIMEOUT = 240
-FOCUS = ['direct_nested_same_function', 'call_on_literal']
+FOCUS = ['direct_nested_same_function', 'call_on_literal', 'negated_index_helper']
 NAMES = ['r', 'rr', 'r_in', 'r_in0', 'm_in2', 'x_v1', 'x_v2', 'weight', 'k', 'k1', 'k10', 'a_b', 'ab', 'tau', 'v', 'u', 'q', 'c0', 'xx']
 F1 = ['sin', 'cos', 'tanh', 'sigmoid', 'absv', 'exp', 'log', 'sqrt', 'tan', 'sinh', 'cosh', 'arctan']
 F2 = ['maxi', 'mini']
@@ -274,6 +274,13 @@ def run_case(case, ctx):
     mech = {}
     want = case.get('want')
     res = {'features': [], 'risk': [want] if want else [], 'nontrivial': True, 'sig': stable_hash(['c05', case['cseed']])}
+    if want == 'negated_index_helper':
+        msg = index_checks(rnd, mech, only_negated=True)
+        if msg:
+            res.update(status='violation', symptom=('silent: ' if 'loud' not in msg else '') + msg, mech=mech)
+        else:
+            res.update(status='ok', symptom='', mech=mech)
+        return res
     samples = []
     try:
         for i in range(case['n_exprs']):
@@ -376,7 +383,7 @@ def run_case(case, ctx):
     return res
 
 
-def index_checks(rnd, mech):
+def index_checks(rnd, mech, only_negated=False):
     nrs = np.random.RandomState(rnd.randrange(1 << 30))
     A = nrs.standard_normal(7)
     M = nrs.standard_normal((5, 6))
@@ -396,7 +403,7 @@ def index_checks(rnd, mech):
         (f"index(A, {i})^2 - index(A, B) * b", A[i] ** 2 - A[B] * b),
         (f"sin(index_2d(M, {j}, {k})) / (2 + index(A, d)**2)", math.sin(M[j, k]) / (2 + A[d] ** 2)),
     ]
-    for s, exp in cases:
+    for s, exp in ([] if only_negated else cases):
         try:
             got = np.asarray(eval_node_path(s, {kk: v for kk, v in vals.items() if kk in s}))
         except Exception as ex:
@@ -405,7 +412,41 @@ def index_checks(rnd, mech):
         if got.shape != exp.shape or not np.allclose(got, exp, rtol=1e-9, atol=1e-12):
             return f"eval_node gives {got.tolist()} for {s!r}, numpy indexing gives {exp.tolist()}"
         mech['index_expressions'] = mech.get('index_expressions', 0) + 1
+    # scalar-valued index expressions inside the generated code of a one-equation operator (vector / matrix constants in the
+    # dict form that PyRates itself uses for such variables)
+    neg_open = 'negated_index_helper' in open_risks(PID)
+    gen_cases = [(f"b + index(A, {i})", b + A[i], False), (f"index_2d(M, {j}, {k}) * b + index(A, d)", M[j, k] * b + A[d], False),
+                 (f"b * index(A, {i}) + sin(index_2d(M, {j}, {k}))", b * A[i] + math.sin(M[j, k]), False),
+                 (f"b - index(A, {i})", b - A[i], True), (f"b - 2.0*index_2d(M, {j}, {k})", b - 2.0 * M[j, k], True),
+                 (f"-index(A, {i})*b + b", -A[i] * b + b, True)]
+    for s, exp, negated in gen_cases:
+        if only_negated != negated and (only_negated or neg_open):
+            continue            # negated index helpers: recorded finding, exercised by its probe family
+        try:
+            got = generated_path_arrays(s, {kk: v for kk, v in vals.items() if re.search(r'\b' + kk + r'\b', s)})
+        except Exception as ex:
+            return (f"loud: generated-code path raised {type(ex).__name__}: {ex} for index expression {s!r}"
+                    + (' [negated index helper]' if negated else ''))
+        if not abs(got - float(exp)) <= 1e-9 * max(1.0, abs(float(exp))):
+            return f"generated function gives {got!r} for {s!r}, numpy indexing gives {float(exp)!r}"
+        mech['index_expressions_generated'] = mech.get('index_expressions_generated', 0) + 1
     return None
+
+
+def generated_path_arrays(expr_str, values):
+    from pyrates import OperatorTemplate, NodeTemplate, CircuitTemplate
+    variables = {'zz_state': 'output(0.0)'}
+    for k, v in values.items():
+        if isinstance(v, np.ndarray):
+            variables[k] = {'vtype': 'constant', 'value': v, 'shape': v.shape, 'dtype': 'int' if v.dtype.kind == 'i' else 'float'}
+        elif isinstance(v, int):
+            variables[k] = {'vtype': 'constant', 'value': v, 'shape': (), 'dtype': 'int'}
+        else:
+            variables[k] = float(v)
+    op = OperatorTemplate(name='expr_op', equations=[f"zz_state' = {expr_str}"], variables=variables)
+    c = CircuitTemplate(name='c', nodes={'n': NodeTemplate(name='nt', operators=[op])})
+    f, args, names, smap = c.get_run_func('vf', step_size=1e-3, vectorize=False, verbose=False, clear=True, float_precision='float64')
+    return float(np.asarray(f(0, np.array(args[1], dtype=float), *args[2:])).ravel()[0])
 
 
 # MANIFEST-BEGIN
